@@ -928,6 +928,122 @@ func checkIteratorConsumers(w *World, r *Report, pfx string) {
 		return
 	}
 	flush := w.flushFn()
+	// L-REQUESTED: a consumer ranges only over an iterator that was handed to the heap loop in an
+	// iteration request (an iterator left out of the request is never closed: the range blocks forever)
+	{
+		var chOrigins func(v ssa.Value, d int) map[*ssa.MakeChan]bool
+		chOrigins = func(v ssa.Value, d int) map[*ssa.MakeChan]bool {
+			out := map[*ssa.MakeChan]bool{}
+			if d > 4 {
+				return out
+			}
+			switch x := w.origin(v).(type) {
+			case *ssa.MakeChan:
+				out[x] = true
+			case *ssa.Phi:
+				for _, e := range x.Edges {
+					for k := range chOrigins(e, d+1) {
+						out[k] = true
+					}
+				}
+			case *ssa.Parameter:
+				fn := x.Parent()
+				for i, q := range fn.Params {
+					if q != x {
+						continue
+					}
+					for _, s2 := range w.callers[fn] {
+						if s2.Common().StaticCallee() == fn && i < len(s2.Common().Args) {
+							for k := range chOrigins(s2.Common().Args[i], d+1) {
+								out[k] = true
+							}
+						}
+					}
+				}
+			}
+			return out
+		}
+		requested := map[*ssa.MakeChan]bool{}
+		for _, site := range w.callers[iterFn] {
+			if site.Common().StaticCallee() != iterFn {
+				continue
+			}
+			for _, a := range site.Common().Args {
+				for k := range chOrigins(a, 0) {
+					requested[k] = true
+				}
+			}
+		}
+		nCons := 0
+		for _, fn := range w.ModFns {
+			if fn.Pkg != w.Mpb {
+				continue
+			}
+			for _, op := range w.Comm().byFn[fn] {
+				if op.Kind != "recv" || !op.CommaOk {
+					continue
+				}
+				u, ok := op.Instr.(*ssa.UnOp)
+				if !ok {
+					continue
+				}
+				ct, ok := u.X.Type().Underlying().(*types.Chan)
+				if !ok || typeName(ct.Elem()) != tBar {
+					continue
+				}
+				nCons++
+				bad := ""
+				os := chOrigins(u.X, 0)
+				if len(os) == 0 {
+					bad = "the iterator's origin is not a channel made by the requester"
+				}
+				for mk := range os {
+					if !requested[mk] {
+						bad = "the loop ranges over an iterator (made at " + w.instrPos(mk) + ") that is never handed to the heap loop in an iteration request: nobody closes it and the consumer blocks forever"
+					}
+				}
+				r.Check(bad == "", pfx+".L-REQUESTED", "iterator consumed in "+fnShort(fn), w.instrPos(op.Instr), "requested from the heap loop", bad)
+			}
+		}
+		r.Floor(pfx+".L-REQUESTED", 3, "render's spawn loop, flush's collection loop, traverse")
+	}
+	// R-ORDER: in one render cycle the width-sync request precedes the iteration request (the heap
+	// loop serves them in order: distributors must run before the bars it hands out start rendering)
+	if render := w.renderFn(); render != nil {
+		var syncFn *ssa.Function
+		for fn := range w.heapSenders() {
+			if fn.Signature.Params().Len() == 1 {
+				if c, ok := fn.Signature.Params().At(0).Type().Underlying().(*types.Chan); ok && c.Dir() == types.RecvOnly {
+					syncFn = fn
+				}
+			}
+		}
+		if syncFn != nil {
+			bad := ""
+			nP := 0
+			w.enumPaths(render, pathOpts{InlineDepth: 2, Inline: w.helperInline(render)}, func(p *Path) {
+				iS, iI := -1, -1
+				for _, ev := range p.Events {
+					if c, ok := ev.In.(*ssa.Call); ok {
+						if c.Call.StaticCallee() == syncFn && iS < 0 {
+							iS = ev.Idx
+						}
+						if c.Call.StaticCallee() == iterFn && iI < 0 {
+							iI = ev.Idx
+						}
+					}
+				}
+				if iI < 0 {
+					return
+				}
+				nP++
+				if iS < 0 || iS > iI {
+					bad = "the iteration request is sent before (or without) the width-sync request of the cycle: the bars start rendering before their columns' distributors exist and block in their first synchronised decorator while the heap loop waits for flush"
+				}
+			})
+			r.Check(bad == "" && nP > 0, pfx+".R-ORDER", "render cycle requests", w.pos(render.Pos()), "sync request, then iteration request", orStr(bad, "render sends no iteration request"))
+		}
+	}
 	for _, site := range w.callers[iterFn] {
 		if site.Parent().Synthetic != "" || site.Common().StaticCallee() != iterFn {
 			continue
